@@ -21,8 +21,10 @@ type SessGen struct {
 	SearchVals map[string][]Val
 	// UsePool makes values written to searchable columns come from a small per-column pool (duplicates, prefixes, boundary lengths).
 	UsePool bool
-	pools   map[string][]Val
-	lastTag string
+	// SimpleOnly makes every statement literal-only and sent with the simple protocol.
+	SimpleOnly bool
+	pools      map[string][]Val
+	lastTag    string
 }
 
 // poolVal draws a value for a searchable column from its pool.
@@ -234,7 +236,7 @@ type boundVal struct {
 
 // exprFor spells a value either as a literal or as a new parameter.
 func (g *SessGen) exprFor(v Val, useParam bool, params *[]boundVal, col ColSpec) string {
-	if useParam {
+	if useParam && !g.SimpleOnly {
 		*params = append(*params, boundVal{v, col})
 		e := fmt.Sprintf("$%d", len(*params))
 		return e
@@ -256,7 +258,7 @@ func (g *SessGen) finish(st *Step, sql string, params []boundVal, nResultCols in
 		st.ParamDesc = append(st.ParamDesc, fmt.Sprintf("%s:%x", p.col.Name, b))
 	}
 	r := g.R
-	if len(params) == 0 && r.Intn(2) == 0 {
+	if len(params) == 0 && (g.SimpleOnly || r.Intn(2) == 0) {
 		st.Proto = "simple"
 		st.ParamFmt = "none"
 		st.ResFmt = "text"
